@@ -522,9 +522,9 @@ class Exec(Interp):
         try:
             return self.as_goal(self.pure_eval(text, fr, extra))
         except Unsupported as ex:
-            # a clause whose guard can hold on this path but which names a local (final_<name>) the path never assigned:
-            # the code took a route the contract does not describe -- a failed obligation, like an unevaluable clause
-            if 'may raise' not in str(ex) and 'unknown name final_' not in str(ex):
+            # (a clause that names a local the path never assigned -- 'unknown name' -- stays a checker error, exit 3: the
+            # same outcome as a renamed local, which is a harmless edit and must not be reported as a violation)
+            if 'may raise' not in str(ex):
                 raise
             self.not_evaluable.append(str(ex))
             return z3.BoolVal(False)
